@@ -131,7 +131,7 @@ class Harness:
     """One #[kani::proof]: a template instantiated on a case."""
 
     def __init__(self, name, case, body, unwind, schema, meta, stubs=(), unwindset=None,
-                 timeout=600, mem_gb=12, covers_required=True, functions=(), unsat_ok=(),
+                 timeout=600, mem_gb=16, covers_required=True, functions=(), unsat_ok=(),
                  should_panic=False, must_unsat=()):
         self.name = name
         self.case = case
@@ -258,6 +258,9 @@ def parse_kani_log(text, res):
         res.playback.append((hm.group(1), hm.group(2).strip().strip('"'), vals))
     if verdict is None:
         res.status, res.reason = "inconclusive", "no verdict in log (crash, timeout or out of memory)"
+        return
+    if "CBMC appears to have run out of memory" in text or "CBMC failed" in text:
+        res.status, res.reason = "inconclusive", "CBMC ran out of memory (limit %d GB)" % res.h.mem_gb
         return
     if errors:
         res.status, res.reason = "inconclusive", "%d checks with Status: ERROR (solver out of memory)" % errors
@@ -418,16 +421,29 @@ class Run:
 
     def loop_ids(self, h, tdir):
         """Resolve the harness's per-loop bounds to CBMC loop ids using the
-        loop list of this very build (stale ids would be silently ignored)."""
+        loop list of this very build (stale ids would be silently ignored by
+        CBMC): compile only, then ask CBMC for the loops of the goto binary."""
         if not h.unwindset:
             return []
-        p = sh(["cargo", "kani", "--harness", "inst::" + h.name, "--exact", "--target-dir", tdir,
-                "-Z", "unstable-options", "--cbmc-args", "--show-loops"],
-               cwd=self.crate, env=self.env, check=False, timeout=600)
-        ids = re.findall(r"^Loop (\S+):\n\s+file (\S+) line (\d+) function (.*)$", p.stdout, re.M)
+        p = sh(["cargo", "kani", "--only-codegen", "--harness", "inst::" + h.name, "--exact", "--target-dir", tdir]
+               + (["-Z", "stubbing"] if h.stubs else []),
+               cwd=self.crate, env=self.env, check=False, timeout=900)
+        outs = []
+        for root, _dirs, files in os.walk(tdir):
+            for fn in files:
+                if fn.endswith(h.name + ".out"):
+                    outs.append(os.path.join(root, fn))
+        if not outs:
+            raise Inconclusive("unwindset: no goto binary for %s after --only-codegen:\n%s" % (h.name, p.stdout[-1500:]))
+        q = sh(["cbmc", "--show-loops", outs[0]], env=self.env, check=False, timeout=600)
+        ids = re.findall(r"^Loop (\S+):", q.stdout, re.M)
         out = []
         for (pat, idx), bound in h.unwindset.items():
-            hits = [i for (i, _f, _l, fn) in ids if pat in fn and i.endswith(".%d" % idx)]
+            if pat.startswith("="):
+                # literal id of a CPROVER library loop (added at link time, not listed here)
+                out.append("%s.%d:%d" % (pat[1:], idx, bound))
+                continue
+            hits = [i for i in ids if pat in i and i.endswith(".%d" % idx)]
             if not hits:
                 raise Inconclusive("unwindset: no loop matches %r.%d in harness %s" % (pat, idx, h.name))
             for i in hits:
